@@ -1,4 +1,4 @@
-HOOK_COMMITS = ["639114e verif hook: Manager.VerifTasks (build tag verif)"]
+HOOK_COMMITS = ["639114e verif hook: Manager.VerifTasks (build tag verif)", "543776b verif hook: Manager.VerifIdle (build tag verif)"]
 NOT_BUILT_REASON = {}
 META = {
  "C17": dict(
